@@ -168,7 +168,9 @@ def known_match(case: dict, detail: Any) -> Optional[str]:
     if kind == 'context-copy' and detail.get('exact'):
         return 'C04-F5'
     if kind == 'comment-nodes' and detail.get('attributable'):
-        return 'C04-F6' if detail.get('simple_content_or_nil') else 'C04-F7'
+        if detail.get('simple_content_or_nil'):
+            return 'C04-F6'
+        return 'C04-F7' if detail.get('differing_errors_are_xpath_based') else None
     if kind == 'verdict' and detail.get('only_reference_errors') and detail.get('dissenting_all_decode'):
         return 'C04-F2'
     if kind == 'first-error' and union_f3(detail.get('raised'), detail.get('first')):
@@ -764,6 +766,10 @@ def run_case(env: Env, case: dict, kinds: list[str], reqs: Optional[list], pend:
         STRIP_POSITION[0] = False
 
 
+# errors produced by the XPath-based machinery (identity constraints, XSD 1.1 assertions)
+XPATH_ERROR_RE = re.compile(r'duplicated value|missing key|not found for|\[err:|assertion|XsdKeyref|XsdUnique|XsdKey|Xsd11')
+
+
 def comment_attribution(env: Env, case: dict, pc: dict, src: 'Sources', eps: dict, outs: dict, kinds: list[str]) -> list[str]:
     """Documents with comment / PI nodes: a tree source that keeps those nodes must give the outcome of the text
     source.  Where it does not, the same tree WITHOUT the nodes is run: equal to the text source = the difference is
@@ -785,10 +791,16 @@ def comment_attribution(env: Env, case: dict, pc: dict, src: 'Sources', eps: dic
         simple = any("a simple content element can't have child elements" in r or
                      "nil='true' but the element is not empty" in r for r in tree_errors)
         differing = sorted(n for n in base if outs[kind].get(n) != base.get(n))
+        # which errors differ: C04-F7 is about values read through XPath (assertions, identity fields) and about decoded
+        # data; an ordinary validation error that only one of the two sources reports is another matter
+        text_errors = base.get('iter_errors', {}).get('ok') or [] if isinstance(base.get('iter_errors'), dict) else []
+        err_diff = sorted(set(tree_errors) ^ set(text_errors))
+        xpath_only = all(XPATH_ERROR_RE.search(r) for r in err_diff)
         n_before = len(ctx.failures)
         ctx.count('cm:outcome-differs:' + kind)
         report(ctx, 'comment / PI nodes of a tree source change the outcome (verdict or data depend on the source kind)', pc,
                {'kind': 'comment-nodes', 'source': kind, 'attributable': attributable, 'simple_content_or_nil': simple,
+                'differing_errors': err_diff[:6], 'differing_errors_are_xpath_based': xpath_only,
                 'differing_entry_points': differing[:8], 'text:iter_errors': base.get('iter_errors'),
                 '%s:iter_errors' % kind: outs[kind].get('iter_errors'),
                 'text:decode:lax': json.dumps(base.get('decode:lax'), default=str)[:300],
@@ -1500,6 +1512,7 @@ def gen_cases(ctx: Ctx, n: int) -> list[dict]:
             d = dict(c, xml=xml, cm=where)
             d.pop('lite', None)
             cmcases.append(d)
+    cmcases.extend(stray_cases(ctx.rng, cases + vcases + wcases + icases))
     # family Q: identity constraints over QName-valued fields x where the prefix of the value is re-bound (small scope:
     # every field x every place, same local names), then random documents
     qcases = GQ.small_scope_Q(ctx.rng)
@@ -1549,7 +1562,40 @@ def insert_comment(rng: Any, xml: str) -> tuple[str, str]:
     else:
         i, where = rng.choice(ends), 'after-a-tag'
     node = rng.choice(COMMENT_NODES)
-    return xml[:i] + node + xml[i:], where + ':' + ('pi' if node.startswith('<?') else 'comment')
+    # character data around the node: in a tree that keeps the node, text AFTER it is the node's tail, text BEFORE it
+    # stays the tail of the preceding element / the text of the parent
+    r = rng.random()
+    if r < 0.4:
+        node, text = node + rng.choice(['stray', ' stray text ', 'x']), 'text-after'
+    elif r < 0.55:
+        node, text = rng.choice(['stray', ' y ']) + node, 'text-before'
+    elif r < 0.7:
+        node, text = node + rng.choice([' ', '\n  ']), 'whitespace-after'
+    else:
+        text = 'no-text'
+    return xml[:i] + node + xml[i:], where + ':' + ('pi' if '<?' in node else 'comment') + ':' + text
+
+
+def stray_cases(rng: Any, base: list[dict]) -> list[dict]:
+    """Small scope: per schema family one document x {after the root start tag, in the middle, before the root end tag}
+    x {comment, PI} followed by non-whitespace character data (the tail of the node in trees that keep it)."""
+    out = []
+    seen = set()
+    for c in base:
+        if c['family'] in seen or c.get('path') or c['faults']:
+            continue
+        seen.add(c['family'])
+        xml = c['xml']
+        ends = [i + 1 for i, ch in enumerate(xml) if ch == '>']
+        if len(ends) < 3:
+            continue
+        for pos, where in ((ends[0], 'after-root-start-tag'), (ends[len(ends) // 2], 'middle'), (ends[-2], 'before-root-end-tag')):
+            for node in ('<!-- c -->', '<?pi x?>'):
+                d = dict(c, xml=xml[:pos] + node + 'stray' + xml[pos:],
+                         cm=where + ':' + ('pi' if '<?' in node else 'comment') + ':text-after')
+                d.pop('lite', None)
+                out.append(d)
+    return out
 
 
 def kinds_for(case: dict) -> list[str]:
